@@ -130,10 +130,31 @@ class C08(Prop):
                     md5.append({'op': 'build.md5', 's': f.contents, '_hash': f.hash})
         md5 += [{'op': 'build.md5', 's': s, '_hash': hashlib.md5(s.encode()).hexdigest()} for s in ['', 'abc', 'é€😀', 'x' * 200]]
         yield 'md5', md5
+        # equal inputs, another past: the same Builder object (and parsed model) was first asked for something it
+        # refused - a faulty variation of the same case - and is then asked for the valid case
+        after = []
+        for c in self._cases[:max(10, n // 2)]:
+            for kind in rng.sample(['unknown-encapsulee', 'unknown-port-name', 'bogus-multiclient'], 2):
+                f = json.loads(json.dumps(c))
+                if kind == 'unknown-encapsulee':
+                    f['cfg']['encapsulee'] = f['cfg']['encapsulee'] + ['Nope']
+                elif kind == 'unknown-port-name':
+                    f['cfg']['ports']['rsts'] = {'names': ['nope_port']}
+                else:
+                    f['cfg']['multiclient'] = {'port': 'nope', 'claim': 'c', 'grant': ['X'], 'release': 'r'}
+                f['expect'] = 'any'
+                d = json.loads(json.dumps(c))
+                d['after_refused'] = f
+                after.append(d)
+        yield 'after-a-refusal', after
 
     def impl(self, case):
         if case['op'] == 'build.md5':
             return case['_hash']
+        if case.get('after_refused'):
+            shared = {}
+            G.build_impl(case['after_refused'], shared=shared)       # refused (or not): its outcome is not the point
+            return G.build_impl(case, shared=shared)
         return G.build_impl(case)
 
     def project(self, case, out):
